@@ -33,6 +33,7 @@ class ItemSpec:
         self.rule_args = {}
         self.home = None
         self.included_from = None
+        self.auto = []
 
 
 class UnitSpec:
@@ -48,6 +49,7 @@ class UnitSpec:
         self.vacuity = True
         self.includes = []
         self.watches = []
+        self.auto = []
 
 
 TAG_RE = re.compile(r'^\[([^\]|]*)\|\s*([^\]]+)\]\s*(.*)$', re.S)
@@ -116,6 +118,10 @@ def parse(path):
             elif word == 'rulearg':
                 k, _, v = rest.partition(' ')
                 u.rule_args.setdefault(k, []).append(v.strip())
+            elif word == 'autoclause':
+                # autoclause c20: every function of this unit that threads `world` (rule R5) gets the clause
+                # "an underlying I/O failure is never reported as success" (see gen.py: auto_c20)
+                u.auto += rest.split()
             elif word == 'include':
                 # include <unit> [stubs] [only <item-substring>...]: reuse another unit's items with their contracts.
                 # `stubs` makes every function external_body (contract assumed here, proved in the home unit).
@@ -180,6 +186,7 @@ def parse(path):
                     pe, as_header = rest.split(' as ', 1)
                 cur = ItemSpec(cur_source, pe.strip(), lineno)
                 cur.home = u.name
+                cur.auto = list(u.auto)
                 cur.as_header = as_header.strip() if as_header else None
                 u.items.append(cur)
             else:
